@@ -547,11 +547,42 @@ def _leanchecker(ctx):
     return rc == 0
 
 
+def _empty_table(ctx):
+    """a definition file without any maskbits row is a (degenerate) definition file: every group is unknown - KeyError for the
+    conversions, False from the existence query - and nothing else happens (no other table is looked for)"""
+    import pydl.pydlutils.sdss as S
+    from unittest import mock
+    saved = S.maskbits
+    text = '#\n# no flags defined yet\n#\n' + TYPEDEFS['maskbits'] + '\n'
+    case = {'stream': 'empty-table', 'text': text}
+    ctx.seen(case)
+    try:
+        ld = impl_load(ctx, text)
+        if ld != {'ok': []}:
+            ctx.violate('empty-table:load', 'set_maskbits of a file without rows gives %s' % ld, case)
+            return
+
+        def no_network(*a, **k):
+            raise RuntimeError('the harness allows no download')
+        with mock.patch('astropy.utils.data.download_file', no_network), mock.patch.object(S, 'download_file', no_network, create=True):
+            got = [impl_query({'t': 'val', 'g': 'TARGET', 'names': ['QSO']}),
+                   impl_query({'t': 'name', 'g': 'TARGET', 'v': {'k': 'int', 'v': 3}, 'concat': False}),
+                   impl_query({'t': 'exist', 'g': 'TARGET', 'names': ['QSO'], 'fe': False, 'we': False}),
+                   impl_query({'t': 'name', 'g': 'TARGET', 'v': {'k': 'int', 'v': 0}, 'concat': False})]
+        ctx.count('empty-table:queries', len(got))
+        exist_false = 'ok' in got[2] and not any(bool(x) for x in np.ravel(np.array(got[2]['ok'], dtype=object)))
+        if got[0] != {'err': 'KeyError'} or got[1] != {'err': 'KeyError'} or not exist_false or got[3] != {'ok': []}:
+            ctx.violate('empty-table:queries', 'with an empty table: flagval %s, flagname %s, flagexist %s, flagname(0) %s' % tuple(got), case)
+    finally:
+        S.maskbits = saved
+
+
 def run(ctx):
     ok = core.audit(ctx, LEAN_MODULES, THEOREMS)
     if ok and ctx.tier == 'thorough':
         ok = _leanchecker(ctx)
     try:
+        _empty_table(ctx)
         run_files(ctx, _fixed(ctx), 'fixed')
         run_files(ctx, _make(ctx, ctx.n(300, 5000), ctx.n(60, 80), wf=True), 'wf')
         run_files(ctx, _make(ctx, ctx.n(150, 2400), ctx.n(40, 60), wf=False), 'nonwf')
